@@ -28,6 +28,7 @@ func main() { drv.Main("mt", mtDriver) }
 //	amounts   real uint64  a*2^63 + v  (a in 0..2, |v| < 2^27)  <->  model  a*2^28 + v;
 //	          maxU = 2*2^28 - 1 is the image of 2^64-1.  Anything else is "inexact"
 //	          (counted in the state; the trace is then not a faithful image).
+//	          ev.amtReal carries the real amount as a decimal string.
 //	data      abstract string <-> bytes; "keep" <-> "[do-not-modify]"
 const (
 	keep   = "keep"
@@ -255,7 +256,7 @@ func (e *mtEnv) project(ctx sdk.Context) any {
 
 func mtEvent(name, who, cls, id, to string, amt int64) chain.M {
 	return chain.M{"name": name, "who": who, "cls": cls, "id": id, "to": to, "amt": amt, "data": "", "cname": "",
-		"ok": true, "panic": false, "gen": ""}
+		"ok": true, "panic": false, "gen": "", "amtReal": ""}
 }
 
 func (e *mtEnv) norm(ev chain.M) chain.M {
@@ -325,6 +326,10 @@ func (e *mtEnv) runBlock(pending []chain.M, w *chain.TraceWriter) {
 	for i, ev := range pending {
 		r := res.Txs[i]
 		ev["ok"], ev["panic"] = r.OK, r.Panic
+		// the real uint64 amount, as a decimal string (for readers and a big-number tier)
+		if ra, ok := toReal(chain.Num(ev, "amt")); ok {
+			ev["amtReal"] = fmt.Sprintf("%d", ra)
+		}
 		if r.OK {
 			switch chain.Str(ev, "name") {
 			case "IssueDenom":
